@@ -2,7 +2,7 @@
 
 E1 over (X, Y from generic data with 12..20 samples and widths (wider, equal, narrower)) x
 complete finite families of maps: linear maps A = ALL full-rank integer 2x2 / 2x3 / 3x2 matrices
-over {-1,0,1,2}; source / target rotations = ALL of the hyperoctahedral groups B_2, B_3 (and a
+over {-1,0,1,2} and a strided slice of the 4x2 / 5x2 / 5x3 ones; source / target rotations = ALL of the hyperoctahedral groups B_2, B_3 (and a
 slice of B_4, B_5) plus a Givens menu; scalings {1/2, 3}; shifts; index choices {default,
 explicit disjoint, explicit overlapping, train = test}; n_local_points = every value 2..n_train;
 estimators {default, Ridge2FoldCV with one fixed alpha, sklearn Ridge}. Oracle: GRE(X, XA) ~ 0,
@@ -29,6 +29,7 @@ RULE = (
 )
 ASSUMPTIONS = [
     "X has full column rank and condition number <= 1e3 (generic family), so 'contained' means an exact linear image",
+    "vanishing GRE / GRD with the DEFAULT (cross-validated cutoff) estimator is demanded only when each of its two folds has at least as many rows as the source has columns; with smaller folds the identity is demanded of a one-candidate cutoff estimator (plain least squares) instead",
     "closeness 1e-9 for invariances, 1e-10 for LRE == GRE, 1e-6 for vanishing measures (measures are O(1) after standardisation; the library computes in double precision)",
     "target-space rotation only with rotation-invariant model selection (one fixed alpha, or sklearn Ridge), as the property states",
     "LRE == GRE only with an order-independent estimator (one fixed alpha / sklearn Ridge without intercept)",
@@ -94,7 +95,20 @@ def groups(tier, seed):
         maps = _int_maps(r, c)
         for i in range(0, len(maps), 16):
             out.append(dict(kind="contained", maps=[m for k, m in enumerate(maps[i:i + 16]) if (i + k) % step == 0 or (r, c) == (2, 2)], r=r, seed=seed))
-    for d in (2, 3):
+    # wider sources (4 or 5 columns with 12 / 16 samples: more columns than one cross-validation fold of the
+    # training half has rows): a strided slice of the same complete family of integer maps
+    for (r, c) in ((4, 2), (5, 2), (5, 3)):
+        total = 4 ** (r * c)
+        want = 48 if tier == "quick" else 480
+        maps = []
+        for i in range(want):
+            flat = np.base_repr((i * (total // want) + 7 * i + 1) % total, 4).zfill(r * c)
+            A = (np.array([int(ch) for ch in flat], float) - 1.0).reshape(r, c)
+            if np.linalg.matrix_rank(A) == min(r, c):
+                maps.append(A.tolist())
+        for i in range(0, len(maps), 16):
+            out.append(dict(kind="contained", maps=maps[i:i + 16], r=r, seed=seed))
+    for d in (2, 3, 4, 5):
         out.append(dict(kind="isometry", d=d, seed=seed, tier=tier))
     for (px, py) in WIDTHS:
         for n in ((12,) if tier == "quick" else (12, 16, 20)):
@@ -142,6 +156,8 @@ def _estimator(spec):
 
     if spec == "default":
         return None
+    if spec == "cutoff1":  # one tiny relative cutoff: plain least squares on the training set, nothing to select
+        return Ridge2FoldCV(alphas=[1e-9], alpha_type="relative", regularization_method="cutoff")
     if spec == "fixed":
         return Ridge2FoldCV(alphas=[1e-3], alpha_type="absolute", regularization_method="tikhonov", shuffle=False)
     if spec == "msecv":  # model selection by (rotation-invariant) mean squared error over a grid
@@ -157,6 +173,14 @@ def _indices(idx, n):
     if idx == "overlapping":
         return np.arange(0, (2 * n) // 3), np.arange(n // 3, n)
     return np.arange(n), np.arange(n)
+
+
+def _folds_determine(n, idx, width):
+    """The default estimator SELECTS its cutoff by 2-fold cross-validation on the training rows: 'zero on contained
+    information' is demanded of it only when each fold alone determines the linear map (rows >= source columns);
+    with smaller folds the selected cutoff is a statistical outcome, not an identity."""
+    n_train = n if idx == "train=test" else n // 2
+    return n_train // 2 >= width
 
 
 def _measure(name, X, Y, idx, est, pointwise=False, n_local=None):
@@ -204,15 +228,18 @@ def check(case):
             A = np.array(case["A"], float)
             X = _X(case["n"], A.shape[0], seed, 1)
             Y = X @ A
-            for idx in ("default", "disjoint", "train=test"):
-                pw = np.asarray(ev("GRE", X, Y, idx, "default", pointwise=True), float)
-                g = float(ev("GRE", X, Y, idx, "default"))
+            for idx, est in itertools.product(("default", "disjoint", "train=test"), ("default", "cutoff1")):
+                pw = np.asarray(ev("GRE", X, Y, idx, est, pointwise=True), float)
+                g = float(ev("GRE", X, Y, idx, est))
                 if pw.min() < 0 or not np.all(np.isfinite(pw)):
                     return r.fail("pointwise-negative-or-nonfinite", "%s" % pw.tolist())
                 if abs(g - np.sqrt((pw ** 2).mean())) > 1e-9 * max(1.0, g):
                     return r.fail("global-not-rms-of-pointwise", "global %.10g, rms %.10g" % (g, np.sqrt((pw ** 2).mean())))
+                if est == "default" and not _folds_determine(case["n"], idx, A.shape[0]):
+                    r.count("default_estimator_with_underdetermined_folds_not_judged")
+                    continue
                 if g > 1e-6:
-                    return r.fail("gre-not-zero-on-contained-information", "GRE(X, XA) = %.3g for A = %s (indices %s)" % (g, A.tolist(), idx))
+                    return r.fail("gre-not-zero-on-contained-information", "GRE(X, XA) = %.3g for A = %s (indices %s, estimator %s)" % (g, A.tolist(), idx, est))
             r.nontrivial = bool(np.abs(A).sum() > min(A.shape))
             r.outcome = ["contained", A.tolist()]
             return r
@@ -220,15 +247,18 @@ def check(case):
             Q = np.array(case["Q"], float)
             X = _X(case["n"], Q.shape[0], seed, 2)
             Y = X @ Q
-            for idx in ("default", "train=test"):
-                pw = np.asarray(ev("GRD", X, Y, idx, "default", pointwise=True), float)
-                g = float(ev("GRD", X, Y, idx, "default"))
+            for idx, est in itertools.product(("default", "train=test"), ("default", "cutoff1")):
+                pw = np.asarray(ev("GRD", X, Y, idx, est, pointwise=True), float)
+                g = float(ev("GRD", X, Y, idx, est))
                 if pw.min() < 0:
                     return r.fail("pointwise-negative-or-nonfinite", "%s" % pw.tolist())
                 if abs(g - np.sqrt((pw ** 2).mean())) > 1e-9 * max(1.0, g):
                     return r.fail("global-not-rms-of-pointwise", "GRD global %.10g, rms %.10g" % (g, np.sqrt((pw ** 2).mean())))
+                if est == "default" and not _folds_determine(case["n"], idx, Q.shape[0]):
+                    r.count("default_estimator_with_underdetermined_folds_not_judged")
+                    continue
                 if g > 1e-6:
-                    return r.fail("grd-not-zero-on-orthogonal-image", "GRD(X, XQ) = %.3g (indices %s)" % (g, idx))
+                    return r.fail("grd-not-zero-on-orthogonal-image", "GRD(X, XQ) = %.3g (indices %s, estimator %s)" % (g, idx, est))
             r.nontrivial = not np.allclose(Q, np.eye(len(Q)))
             r.outcome = ["isometry", np.round(Q, 6).tolist()]
             return r
